@@ -177,6 +177,21 @@ def fit_args(case, data):
     return d, fd
 
 
+def contain(arr, kind):
+    """hand an array of points over in another container / dtype"""
+    if kind == "float64":
+        return arr
+    if kind == "object":
+        return np.asarray(arr, dtype=object)
+    if kind == "float32":
+        return np.asarray(arr, dtype=np.float32)
+    if kind == "list":
+        return np.asarray(arr).tolist()
+    import pandas as pd
+    a = np.asarray(arr, dtype=object)            # object-typed frame / series (as read from a mixed csv)
+    return pd.Series(a) if a.ndim == 1 else pd.DataFrame(a)
+
+
 def compute(vc, case, model, data):
     n = case["n"]
     op = case["op"]
@@ -213,7 +228,8 @@ def compute(vc, case, model, data):
         if arg.endswith("NaN"):
             x[0, pos] = np.nan
         elif arg.endswith("Inf"):
-            x[0, pos] = np.inf
+            x[0, pos] = np.inf if pos % 2 == 0 else -np.inf
+        x = contain(x, ctx["container"])
         if kind == "tpdf":
             # a transformation under which an infinite coordinate has a finite image (s = 1/(1+t^2) + 1/2)
             tm = vc.TransformedModel(model, transform=lambda y: 0.5 + 1.0 / (1.0 + np.asarray(y) ** 2),
@@ -221,7 +237,7 @@ def compute(vc, case, model, data):
             return tm.pdf(x)
         return model.pdf(x) if kind == "pdf" else model.cdf(x)
     if kind in ("mpdf", "mcdf", "micdf", "ccdf", "cicdf"):
-        bad = np.nan if arg.endswith("NaN") else (np.inf if arg.endswith("Inf") else None)
+        bad = np.nan if arg.endswith("NaN") else ((np.inf if pos % 2 == 0 else -np.inf) if arg.endswith("Inf") else None)
         pts = np.array([0.5, 0.6]) if kind in ("micdf", "cicdf") else np.array([1.2, 1.5])
         given = np.full((2, n), 1.5)
         if bad is not None:
@@ -229,6 +245,10 @@ def compute(vc, case, model, data):
                 given[1, pos] = bad
             else:
                 pts[1] = bad
+            if "Given" in arg:
+                given = contain(given, ctx["container"])
+            else:
+                pts = contain(pts, ctx["container"])
         if kind == "mpdf":
             return model.marginal_pdf(pts, pos)
         if kind == "mcdf":
@@ -357,7 +377,7 @@ def case_key(case):
     return (f"n={case['n']} base={case['b']} mal={mal_text(case)} "
             f"op={case['op']['kind']}/{case['op']['arg']} fit={case['fit']['kind']} data={case['data']} cond=[{conds}] "
             f"ctx=allfixed:{cx['fixed']},sample:{cx['sample']},fitted:{int(cx['fitted'])},opt:{cx['opt']},"
-            f"slicer:{cx['skind']}/{cx['skw']},fixed_at:{cx['fixval']}")
+            f"slicer:{cx['skind']}/{cx['skw']},fixed_at:{cx['fixval']},points:{cx['container']}")
 
 
 def judge(ctx, cases, recs, cfg):
@@ -404,6 +424,7 @@ def run(ctx):
     ctx.model_check("Validation", "MC_Validation_mut_falsy.cfg", expect_violation="RejectedNotComputed", workers=4)
     ctx.model_check("Validation", "MC_Validation_mut_depkw.cfg", expect_violation="RejectedNotComputed", workers=4)
     ctx.model_check("Validation", "MC_Validation_mut_fitkey.cfg", expect_violation="RejectedNotComputed", workers=4)
+    ctx.model_check("Validation", "MC_Validation_mut_object.cfg", expect_violation="RejectedNotComputed", workers=4)
     # ---- R
     cases = ctx.generate("Validation", ctx.pick("Gen_Validation_quick.cfg", "Gen_Validation_thorough.cfg"))
     cases.sort(key=case_key)
